@@ -657,6 +657,68 @@ theorem structure_placeholder_counts (tb : Tables) (files : Files) (d : Dict Str
       rw [← hi]
       simp [hfl]
 
+/-- table obligation for the shared dictionary of a two-kind placeholder component -/
+theorem tables_placeholder_shared_dict : tables.SharedOK := by decide
+
+/-- a two-kind placeholder component hands its repairable and its non-repairable source the *same*
+dictionary (no copy); the second source nevertheless ends up with exactly the values it would get
+from a fresh copy -/
+theorem placeholder_second_source (tb : Tables) (hw : tb.WF) (hsh : tb.SharedOK)
+    (methods : List String) (G : Dict String) (Gm : Dict MKey) (T : Option Row) (S E : Row) (nG : Nat)
+    (sid : String) (m : Dict MKey) :
+    sourceEff tb methods sid false [] (unprefixLoop tb.repPrefix [] (compCtx tb methods G Gm T S E nG)) m
+      = sourceEff tb methods sid false [] (compCtx tb methods G Gm T S E nG) m := by
+  obtain ⟨hsame, hscale, _, hun⟩ := hw
+  have key : ∀ sk ∈ tb.srcKeysFor false,
+      (unprefixLoop tb.nonRepPrefix [] (unprefixLoop tb.repPrefix [] (compCtx tb methods G Gm T S E nG))).get sk
+        = (unprefixLoop tb.nonRepPrefix [] (compCtx tb methods G Gm T S E nG)).get sk := by
+    intro sk hsk
+    obtain ⟨hkey, hin, hu, h2, h3⟩ := hun false (by simp) sk hsk
+    simp only [Tables.prefixOf, Bool.false_eq_true, if_false] at hkey hin hu h2 h3
+    have hk := keys_compCtx tb hsame hscale methods G Gm T S E nG
+    have hnew : ∀ k', k' ∈ (unprefixLoop tb.repPrefix [] (compCtx tb methods G Gm T S E nG)).keys →
+        hasInfix tb.nonRepPrefix k' = true → k' ∈ tb.globalPlain := by
+      intro k' hk' hinf
+      rcases keys_unprefixLoop_sub _ _ _ _ hk' with h1 | ⟨k0, hk0, hin0, hk0'⟩
+      · exact (hk k').mp h1
+      · have := hsh.1 k0 ((hk k0).mp hk0) hin0
+        rw [hk0'] at this
+        rw [this] at hinf
+        exact absurd hinf (by simp)
+    rw [get_unprefixLoop tb.nonRepPrefix [] _ sk (tb.nonRepPrefix ++ sk) hu hin
+          (keys_unprefixLoop_mono _ _ _ _ ((hk _).mpr hkey))
+          (fun k' hk' hinf => h2 k' (hnew k' hk' hinf) hinf)
+          (fun k' hk' hinf => h3 k' (hnew k' hk' hinf) hinf)]
+    rw [get_unprefixLoop tb.nonRepPrefix [] _ sk (tb.nonRepPrefix ++ sk) hu hin ((hk _).mpr hkey)
+          (fun k' hk' => h2 k' ((hk k').mp hk')) (fun k' hk' => h3 k' ((hk k').mp hk'))]
+    rw [get_unprefixLoop_other tb.repPrefix [] _ (tb.nonRepPrefix ++ sk)
+          (fun k0 hk0 hin0 => hsh.2 k0 ((hk k0).mp hk0) hin0 sk hsk)]
+  have e1 : tb.srcErs ∈ tb.srcKeysFor false := by simp [Tables.srcKeysFor]
+  have e2 : tb.srcEpr ∈ tb.srcKeysFor false := by simp [Tables.srcKeysFor]
+  have e3 : tb.srcDur ∈ tb.srcKeysFor false := by simp [Tables.srcKeysFor]
+  have e4 : tb.srcMulti ∈ tb.srcKeysFor false := by simp [Tables.srcKeysFor]
+  simp only [sourceEff, Bool.false_eq_true, if_false, key _ e1, key _ e2, key _ e3, key _ e4]
+
+/-- the sources of a placeholder component of a group: one repairable and/or one non-repairable
+source, each built from the group's component dictionary (no source row: nothing to override) -/
+theorem structure_sources_placeholder_ctx (tb : Tables) (hw : tb.WF) (hsh : tb.SharedOK)
+    (hd : compType tb.placeholderRep ≠ compType tb.placeholderBoth
+        ∧ compType tb.placeholderNonRep ≠ compType tb.placeholderBoth
+        ∧ compType tb.placeholderNonRep ≠ compType tb.placeholderRep)
+    (methods : List String) (files : Files) (G : Dict String) (Gm : Dict MKey) (T : Option Row)
+    (S E : Row) (nG : Nat) (m : Dict MKey) :
+    componentSources tb methods files (compType tb.placeholderBoth) (compCtx tb methods G Gm T S E nG) m
+        = [sourceEff tb methods (compType tb.placeholderRep) true [] (compCtx tb methods G Gm T S E nG) m,
+           sourceEff tb methods (compType tb.placeholderNonRep) false [] (compCtx tb methods G Gm T S E nG) m]
+    ∧ componentSources tb methods files (compType tb.placeholderRep) (compCtx tb methods G Gm T S E nG) m
+        = [sourceEff tb methods (compType tb.placeholderRep) true [] (compCtx tb methods G Gm T S E nG) m]
+    ∧ componentSources tb methods files (compType tb.placeholderNonRep) (compCtx tb methods G Gm T S E nG) m
+        = [sourceEff tb methods (compType tb.placeholderNonRep) false [] (compCtx tb methods G Gm T S E nG) m] := by
+  refine ⟨?_, (structure_sources_placeholder tb methods files _ m hd).2.1,
+    (structure_sources_placeholder tb methods files _ m hd).2.2⟩
+  have := placeholder_second_source tb hw hsh methods G Gm T S E nG (compType tb.placeholderNonRep) m
+  simp only [componentSources, if_true, this]
+
 /-! ## 6. the property -/
 
 /-- the values the chain of levels prescribes for a source (row `R`, repairable flag `rep`) of a
@@ -695,7 +757,8 @@ theorem source_spec (tb : Tables) (hw : tb.WF) (methods : List String) (G : Dict
 for all parameter files, infrastructure files and samples —
  (1) every source built from a sources-file row carries, for every propagating parameter, the value of
      the most granular level that specifies it (production rate: with the split over groups and
-     components), and such a source is what every component of every group of every site holds;
+     components), and such a source is what every component of every group of every site holds
+     (placeholder components: one repairable and/or one non-repairable such source without a row);
  (2) every group's survey time/cost and every site's frequency / months / years / deployment likewise;
  (3) without equipment-level overrides the components' production rates, the groups' survey costs
      and times add back up to the site value;
@@ -719,6 +782,14 @@ def C15_statement : Prop :=
               sourceEff tables methods r.sid r.rep r.cells
                 (compCtx tables methods G Gm (typeRowOf files s) s.cells g.2.1 g.2.2)
                 (groupCtx tables methods G Gm (typeRowOf files s) s.cells g.2.1 g.2.2).2)) ∧
+    (∀ (T : Option Row) (S E : Row) (nG : Nat) (m : Dict MKey),
+      componentSources tables methods files (compType tables.placeholderBoth) (compCtx tables methods G Gm T S E nG) m
+          = [sourceEff tables methods "Placeholder_Rep" true [] (compCtx tables methods G Gm T S E nG) m,
+             sourceEff tables methods "Placeholder_NonRep" false [] (compCtx tables methods G Gm T S E nG) m]
+      ∧ componentSources tables methods files (compType tables.placeholderRep) (compCtx tables methods G Gm T S E nG) m
+          = [sourceEff tables methods "Placeholder_Rep" true [] (compCtx tables methods G Gm T S E nG) m]
+      ∧ componentSources tables methods files (compType tables.placeholderNonRep) (compCtx tables methods G Gm T S E nG) m
+          = [sourceEff tables methods "Placeholder_NonRep" false [] (compCtx tables methods G Gm T S E nG) m]) ∧
     -- (2) groups and sites
     (∀ (s : SiteRow),
       (buildSite tables methods G Gm files s).groups
@@ -778,11 +849,20 @@ def C15_statement : Prop :=
 theorem C15 : C15_statement := by
   intro methods G Gm files
   have hw := tables_wf
-  refine ⟨?_, ?_, ?_, ?_, ?_, ?_⟩
+  refine ⟨?_, ?_, ?_, ?_, ?_, ?_, ?_⟩
   · intro T S E R nG sid rep
     exact source_spec tables hw methods G Gm T S E R nG sid rep
   · intro s ty rows hrows h1 h2 h3 g _
     exact structure_sources_file tables methods files ty _ _ rows hrows h1 h2 h3
+  · intro T S E nG m
+    have hn := tables_placeholder_names
+    have hd : compType tables.placeholderRep ≠ compType tables.placeholderBoth
+        ∧ compType tables.placeholderNonRep ≠ compType tables.placeholderBoth
+        ∧ compType tables.placeholderNonRep ≠ compType tables.placeholderRep := by
+      rw [hn.2.1, hn.2.2.1, hn.2.2.2]; decide
+    have := structure_sources_placeholder_ctx tables hw tables_placeholder_shared_dict hd methods files G Gm T S E nG m
+    rw [hn.2.2.1, hn.2.2.2] at this
+    exact this
   · intro s
     refine ⟨buildSite_groups tables methods G Gm files s, ?_, site_most_granular_wins tables hw methods G Gm files s⟩
     intro g hg
